@@ -28,8 +28,9 @@ from vf.ref import c18_ref as R
 LEVEL = "exploration"
 RULE = ("#expr: (a) bounded-exhaustive: every ordered (parent, child, side) pair of the 18 binary operators and every "
         "unary function/sign against every binary operator in 3 shapes, several literal triples; (b) random ASTs to "
-        "depth 5 over all operators, literals, pi/e; each AST rendered 5 ways (minimal / full / redundant parentheses x "
-        "blanks x letter case). string functions: exhaustive grid of all strings over a 4-letter alphabet up to length "
+        "depth 5 over all operators, literals, pi/e; each AST rendered 7 ways (minimal / full / redundant parentheses x "
+        "blanks x letter case x literal spelling: leading zeros, trailing zeros, '.5', explicit '+'); (c) a fixed grid of "
+        "one-literal expressions in 5 spelling classes x 11 wrappings, also through plural and formatnum. string functions: exhaustive grid of all strings over a 4-letter alphabet up to length "
         "3 (quick) / 4-5 (thorough) x all integer arguments in [-10,10] x needles/pads, plus random strings to length 8 "
         "over a 24-character hostile alphabet with blank padding, upper-cased function names and subjects passed "
         "through a template. plural: integers 0..10^6 (English). formatnum: every shipped locale x every "
@@ -44,7 +45,9 @@ ASSUMPTIONS = [
     "string functions are asserted on the documented domain only: later arguments without leading/trailing blanks, #pos "
     "offset >= 0, #rpos without offset, #explode limit >= 0, #titleparts without ':' and with first <= 0 (compared modulo "
     "the case of the first letter), urlencode without '~' and WIKI only over characters the manual shows",
-    "plural: default (English) rule, non-negative plain integers, both forms given",
+    "plural: default (English) rule, non-negative plain integers (with or without leading zeros), both forms given",
+    "literal spellings: ASCII decimal numerals only; decimal digits of other scripts are evaluated by the unchanged tree "
+    "(Python int/float accept them) and are not asserted; superscript/circled digits must give an expression error",
     "formatnum: plain numerals (digits with at most one '.'), grouping as given by the shipped grouping_method "
     "(no minimum-grouping-digits rule); the locale record is read from the JSON file by the monitor itself",
     "per-case CPU budget 20 s stands for 'returns'",
@@ -90,7 +93,8 @@ def floors(tier):
     # (the round primitive raises on it: skipped); unary pairs: 16 x 18 x 3 = 864, minus the 9 float-valued
     # functions as right operand of round
     f = {"oracle.expr.rendering": 20000, "oracle.expr.ast": 5000, "sets.expr.pairs": 645, "sets.expr.unary_pairs": 850,
-         "sets.expr.renderings": 5, "sets.str.fns": 15, "sets.locales": 96, "sets.locale_settings": 8,
+         "sets.expr.renderings": 7, "oracle.expr.literal-spelling": 400, "sets.expr.literal_spellings": 6,
+         "counters.plural.leading-zeros": 100, "sets.str.fns": 15, "sets.locales": 96, "sets.locale_settings": 8,
          "oracle.formatnum.forward": 96 * 84, "oracle.formatnum.reverse": 96 * 84, "oracle.formatnum.roundtrip": 96 * 84,
          "oracle.plural": 500, "counters.plural.n=1": 50, "counters.grid.parts_completed": NSH,
          "anchors.expr_fn": 20000, "anchors.expr_fn.generic_binary": 20000, "anchors.expr_fn.parse_unary_fn": 20000,
@@ -195,7 +199,9 @@ def is_number(s):
 
 
 # =============================================================================== #expr
-RENDERINGS = ["min", "full", "red+blanks+case", "min+blanks+case", "full+blanks"]
+RENDERINGS = ["min", "full", "red+blanks+case", "min+blanks+case", "full+blanks", "min+spelling",
+              "red+blanks+case+spelling"]
+SPELLED = ("min+spelling", "red+blanks+case+spelling")
 
 
 def expr_variants(ast, rng):
@@ -206,6 +212,9 @@ def expr_variants(ast, rng):
                                 ("full+blanks", "full", True, False)):
         toks = X.tokens(ast, style, rng)
         out[name] = X.join(toks, rng, sp, cs)
+    # literal spelling (leading / trailing zeros, ".5", explicit "+") is one more rendering dimension
+    out["min+spelling"] = X.render(X.spell_ast(ast, "mixed", rng), "min")
+    out["red+blanks+case+spelling"] = X.join(X.tokens(X.spell_ast(ast, "mixed", rng), "red", rng), rng, True, True)
     return out
 
 
@@ -218,14 +227,14 @@ def expr_ok(mon, text, exp, iserr):
     return st == "ok" and got == exp, st, got
 
 
-def expr_fails(mon, ast, style):
+def expr_fails(mon, ast, style, spell=None):
     try:
         exp, iserr = mon.expected(ast)
     except X.Skip:
         return False
     if iserr:
         return False
-    ok, _, _ = expr_ok(mon, X.render(ast, style), exp, iserr)
+    ok, _, _ = expr_ok(mon, X.render(X.spell_ast(ast, spell) if spell else ast, style), exp, iserr)
     return not ok
 
 
@@ -244,6 +253,20 @@ def classify_expr(mon, ast, texts, results):
         style, rule = "full", "full-parens≠reference"
     elif not results["min"][0]:
         style, rule = "min", "minimal-parens≠reference"
+    elif all(n in SPELLED for n in bad):
+        # only renderings with respelled literals fail: find the spelling class, then the smallest AST
+        name = bad[0]
+        for mode in X.SPELL_MODES:
+            if expr_fails(mon, ast, "min", mode):
+                small = X.minimise(ast, lambda a: expr_fails(mon, a, "min", mode), mon.prims)
+                if not expr_fails(mon, small, "min", mode):
+                    small = ast
+                exp, iserr = mon.expected(small)
+                text = X.render(X.spell_ast(small, mode), "min")
+                ok, st, got = expr_ok(mon, text, exp, iserr)
+                return ("expr/literal-spelling:%s/%s/%s" % (mode, X.shape(small), got_class(st, got)), small,
+                        {"minimal": text, "expected": exp, "got": got, "spelling": mode})
+        return "expr/literal-spelling:mixed/%s" % got_class(*results[name][1:]), None, {"rendering": name}
     else:
         # only a variant with blanks / letter case / redundant parentheses fails
         name = bad[0]
@@ -312,8 +335,10 @@ def expr_case(mon, obs, ast, rng, gen):
                       {"family": "expr", "ast": ast, "texts": texts})
         return
     sig, small, detail = classify_expr(mon, ast, texts, results)
-    obs.violation(sig, "%s: expected %r; %s" % (canon[:200], exp, json.dumps(detail, ensure_ascii=False)[:400]),
-                  {"family": "expr", "ast": small if small is not None else ast, "texts": texts if small is None else None})
+    case = {"family": "expr", "ast": small if small is not None else ast, "texts": texts if small is None else None}
+    if detail.get("spelling"):
+        case["texts"] = {"min+spelling": detail["minimal"]}
+    obs.violation(sig, "%s: expected %r; %s" % (canon[:200], exp, json.dumps(detail, ensure_ascii=False)[:400]), case)
 
 
 def note_pairs(obs, ast):
@@ -711,30 +736,37 @@ def random_str_case(rng):
 
 
 # =============================================================================== plural
-def plural_eval(mon, n, one, other, ws=""):
-    text = "{{plural:%s%s%s|%s|%s}}" % (ws, n, ws, one, other)
-    exp = R.f_plural(str(n), one, other)
+def plural_eval(mon, n, one, other, ws="", zeros=0):
+    text = "{{plural:%s%s%s|%s|%s}}" % (ws, "0" * zeros + str(n), ws, one, other)
+    exp = R.f_plural("0" * zeros + str(n), one, other)
     st, got = mon.expand(text)
     return text, exp, st, got
 
 
-def plural_case(mon, obs, n, one, other, ws=""):
-    text, exp, st, got = plural_eval(mon, n, one, other, ws)
+def plural_case(mon, obs, n, one, other, ws="", zeros=0):
+    """zeros: leading zeros written before the number (it selects by NUMBER, not by spelling)."""
+    text, exp, st, got = plural_eval(mon, n, one, other, ws, zeros)
     if exp is R.OUT:
         return
-    obs.case("plural:%s|%s|%s|%r" % (n, one, other, ws), nontrivial=True,
+    if zeros:
+        obs.count("plural.leading-zeros")
+    obs.case("plural:%s|%s|%s|%r|%d" % (n, one, other, ws, zeros), nontrivial=True,
              sample={"family": "plural", "call": text, "expected": exp} if n > 1 and mon.want_sample("plural") else None)
     obs.check("plural")
     obs.count("plural.n=1" if n == 1 else "plural.n≠1")
     if st == "ok" and got == exp:
         return
-    case = {"family": "plural", "n": n, "one": one, "other": other, "ws": ws}
+    case = {"family": "plural", "n": n, "one": one, "other": other, "ws": ws, "zeros": zeros}
     if st != "ok":
         sig = "plural/" + ("no-return" if st == "no-return" else "raises:" + got)
     else:
         cls = "n=1" if n == 1 else ("n=0" if n == 0 else "n>1")
         what = "got-other-form" if got == other else ("got-one-form" if got == one else "got-neither-form")
         sig = "plural/%s/%s" % (cls, what)
+        if zeros:
+            _, e2, st2, g2 = plural_eval(mon, n, one, other, ws, 0)
+            if st2 == "ok" and g2 == e2:
+                sig += "/needs=leading-zero"
     obs.violation(sig, "%r -> %r, reference %r" % (text, got, exp), case)
 
 
@@ -873,6 +905,9 @@ def run_shard(spec):
     # ---- #expr, documented result domain of logical / comparison operators (shard 0 only: a fixed grid)
     if idx == 0:
         primitive_cases(mon, obs)
+    # ---- #expr, a whole expression that is one literal, in every spelling and wrapping (shard 1 only: a fixed grid)
+    if idx == 1 % nsh:
+        literal_cases(mon, obs)
     # ---- #expr, random part
     for i in range(p["expr_rand"]):
         d = 2 + (i % 4)
@@ -890,7 +925,7 @@ def run_shard(spec):
     for i in range(p["plural"]):
         n = PLURAL_NS[i % len(PLURAL_NS)] if i % 3 else rng.choice([1, 1, rng.randint(0, 30), rng.randint(0, 10 ** 6)])
         one, other = rng.choice(["is", "page", "a b", "1", "é"]), rng.choice(["are", "pages", "c", "2", "ы"])
-        plural_case(mon, obs, n, one, other, rng.choice(["", "", " ", "\n"]))
+        plural_case(mon, obs, n, one, other, rng.choice(["", "", " ", "\n"]), rng.choice([0, 0, 0, 1, 2]))
     mon.close()
     # ---- formatnum: this shard's locales, every (integer digits, fraction digits) cell
     locs = locales()
@@ -964,6 +999,106 @@ def primitive_cases(mon, obs):
                           {"family": "primitive", "text": text, "exp": e})
 
 
+# =============================================================================== one-literal expressions
+# A numeral is a well-formed expression. Its value is the decimal number it denotes, printed like every other
+# #expr result (integral values without a fraction); it does not depend on leading zeros, trailing zeros of the
+# fraction, a bare point, an explicit "+", blanks, redundant parentheses, "+0" or "*1". The same spellings are fed
+# to plural and to formatnum (through #expr). Expected values come from the decimal reading, not from the code.
+LIT_SPELLINGS = {
+    "plain": ["0", "1", "7", "10", "12", "100", "2024", "0.5", "2.5", "1.25", "10.75"],
+    "leading-zero": ["00", "01", "07", "007", "0010", "012", "00100", "02024", "00.5", "02.5", "001.25"],
+    "trailing-zero": ["0.50", "2.500", "1.250", "10.7500", "7.0", "10.00", "0.0"],
+    "bare-point": [".5", ".25", ".50", ".0"],
+    "trailing-point": ["7.", "10.", "0.", "07."],
+}
+LIT_FORMS = [("bare", "%s"), ("bare", " %s "), ("bare", "\n%s\n"), ("parens", "(%s)"), ("parens", "( ( %s ) )"),
+             ("plus", "+%s"), ("plus", "+ %s"), ("plus-zero", "%s+0"), ("times-one", "%s * 1"), ("minus", "-%s"),
+             ("minus-minus", "- -%s")]
+# characters for which str.isdigit() holds but which are no decimal numerals: the unchanged tree answers with an
+# in-band expression error for each of them (decimal digits of other scripts are evaluated by it: not asserted)
+NON_NUMERALS = ["\u00b2", "\u00b3", "\u00b9", "\u2460", "\u2074"]
+
+
+def decimal_print(lit, negate=False):
+    """Independent decimal reading of a numeral, printed as #expr prints numbers."""
+    ip, _, fp = lit.partition(".")
+    ip = ip.lstrip("0") or "0"
+    fp = fp.rstrip("0")
+    v = float(ip + "." + fp) if fp else int(ip)
+    if negate:
+        v = -v
+    if isinstance(v, float) and v == int(v):
+        v = int(v)
+    if v == 0:
+        v = 0
+    return str(v)
+
+
+def literal_check(mon, obs, kind, spelling, form, lit):
+    """kind: expr | plural | formatnum | non-numeral"""
+    if kind == "expr":
+        text = "{{#expr:" + (form % lit) + "}}"
+        exp = decimal_print(lit, negate=form.count("-") == 1)
+    elif kind == "plural":
+        text = "{{plural:" + (form % lit) + "|one|many}}"
+        exp = "one" if decimal_print(lit) == "1" else "many"
+    elif kind == "formatnum":
+        text = "{{formatnum:{{#expr:" + (form % lit) + "}}}}"
+        exp = R.f_formatnum(decimal_print(lit), {"decimal_point": ".", "grouping_separator": ",", "grouping_method": [3, 0]})
+    else:
+        text = "{{#expr:" + (form % lit) + "}}"
+        exp = None
+    st, got = mon.expand(text)
+    obs.check("expr.literal-spelling")
+    obs.case("literal:" + text, nontrivial=spelling != "plain")
+    obs.add("expr.literal_spellings", spelling)
+    if kind == "non-numeral":
+        ok = st == "ok" and got.startswith('<strong class="error">')
+        exp = "an expression error"
+    else:
+        ok = st == "ok" and got == exp
+    return ok, text, exp, st, got
+
+
+def literal_cases(mon, obs):
+    def report(kind, spelling, fname, form, lit, text, exp, st, got):
+        if st != "ok":
+            sig = "expr/single-literal/%s" % ("no-return" if st == "no-return" else "raises:" + got)
+        elif kind == "non-numeral":
+            sig = "expr/single-literal/non-numeral-accepted/form=%s" % fname
+        else:
+            sig = "%s/single-literal/spelling=%s/form=%s" % ({"expr": "expr", "plural": "plural-of-literal",
+                                                              "formatnum": "formatnum-of-expr"}[kind], spelling, fname)
+        obs.violation(sig, "%r -> %r, expected %s" % (text, got, exp if kind == "non-numeral" else repr(exp)),
+                      {"family": "literal", "kind": kind, "spelling": spelling, "form": form, "lit": lit})
+
+    for spelling, lits in LIT_SPELLINGS.items():
+        for lit in lits:
+            for fname, form in LIT_FORMS:
+                ok, text, exp, st, got = literal_check(mon, obs, "expr", spelling, form, lit)
+                if not ok:
+                    report("expr", spelling, fname, form, lit, text, exp, st, got)
+    # plural selects by number (plain integers only: the English rule for decimals is not asserted)
+    for spelling, lits in (("plain", ["0", "1", "2", "11"]), ("leading-zero", ["01", "001", "02", "00", "011", "0001"])):
+        for lit in lits:
+            for fname, form in LIT_FORMS[:3]:
+                ok, text, exp, st, got = literal_check(mon, obs, "plural", spelling, form, lit)
+                if not ok:
+                    report("plural", spelling, fname, form, lit, text, exp, st, got)
+    for spelling, lits in (("plain", ["7", "1234", "1234567.5"]), ("leading-zero", ["07", "01234", "001234567.5"]),
+                           ("trailing-zero", ["1234.50", "1234567.500"])):
+        for lit in lits:
+            for fname, form in LIT_FORMS[:5]:
+                ok, text, exp, st, got = literal_check(mon, obs, "formatnum", spelling, form, lit)
+                if not ok:
+                    report("formatnum", spelling, fname, form, lit, text, exp, st, got)
+    for ch in NON_NUMERALS:
+        for fname, form in LIT_FORMS[:5]:
+            ok, text, exp, st, got = literal_check(mon, obs, "non-numeral", "non-numeral", form, ch)
+            if not ok:
+                report("non-numeral", "non-numeral", fname, form, ch, text, exp, st, got)
+
+
 # =============================================================================== replay
 def replay(case):
     obs = Obs()
@@ -993,6 +1128,10 @@ def replay(case):
         elif fam == "str":
             str_case(mon, obs, case["fn"], case["args"], case.get("deco"), "replay")
         elif fam == "plural":
-            plural_case(mon, obs, case["n"], case["one"], case["other"], case.get("ws", ""))
+            plural_case(mon, obs, case["n"], case["one"], case["other"], case.get("ws", ""), case.get("zeros", 0))
+        elif fam == "literal":
+            ok, text, exp, st, got = literal_check(mon, obs, case["kind"], case["spelling"], case["form"], case["lit"])
+            if not ok:
+                obs.violation("single-literal", "%r -> %r, expected %r" % (text, got, exp), case)
         mon.close()
     return {"violations": [(v["sig"], v["msg"]) for v in obs.violations.values()]}
